@@ -127,4 +127,24 @@ PROPS = {
             "depends on C01 through the regenerated walker table",
         ],
     },
+    "C08": {
+        "theorems": {
+            "Solstat.Props.C08": [
+                "mem_writtenNames", "mem_storageVarTable", "constantVariables_exact", "constantVariables_sound",
+                "sstore_exact", "keys_storageVarTable", "mem_constructorAssigns", "mem_writtenOutsideConstructors",
+                "immutableVariables_sound", "immutableVariables_complete_partial", "immutableVariables_complete_counterexample",
+                "mem_assignedBases", "memoryToCalldata_exact", "memoryToCalldata_sound",
+            ],
+            "Solstat.Props.C01": ["C01", "blocked_empty", "kinds_by_name"],
+        },
+        "obs": [("det", ["--nolines", "constant_variable", "immutable_variables", "memory_to_calldata", "sstore"])],
+        "kinds": ["DET"],
+        "groups": ["constantvariable", "immutablevariables", "memorytocalldata", "sstore"],
+        "assumptions": [
+            "state-variable names unique within the file and not shadowed by parameters or locals (property hypothesis; evaluated per input, failing inputs are outside the oracle's domain)",
+            "immutable_variables completeness is proved for right-hand sides that do not look like a non-value type (…_complete_partial); the full statement is false of model and code (known finding K1, Lean counterexample)",
+            "memory_to_calldata: ++/-- on a parameter and member writes are a grey zone (section 8.4): the must-suggest oracle excludes them, the must-not oracle does not name them",
+            "depends on C01 through the regenerated walker table",
+        ],
+    },
 }
